@@ -89,7 +89,7 @@ func (opts *CompileOptions) Compile(source string) (string, error) {
 		return "", fmt.Errorf("missing tabular queries")
 	}
 
-	subqueries, err := splitQueries(nil, source, expr)
+	subqueries, err := splitQueries(nil, source, scope, expr)
 	if err != nil {
 		return "", err
 	}
@@ -135,7 +135,7 @@ type subquery struct {
 
 // splitQueries appends queries to dst that represent the given tabular expression.
 // The last element of the returned slice will be the query that represents the full expression.
-func splitQueries(dst []*subquery, source string, expr *parser.TabularExpr) ([]*subquery, error) {
+func splitQueries(dst []*subquery, source string, scope map[string]string, expr *parser.TabularExpr) ([]*subquery, error) {
 	dstStart := len(dst)
 	var lastSubquery *subquery
 	for i := 0; i < len(expr.Operators); i++ {
@@ -196,7 +196,7 @@ func splitQueries(dst []*subquery, source string, expr *parser.TabularExpr) ([]*
 			leftSubquery := len(dst) - 1
 
 			var err error
-			dst, err = splitQueries(dst, source, op.Right)
+			dst, err = splitQueries(dst, source, scope, op.Right)
 			if err != nil {
 				return nil, err
 			}
@@ -240,6 +240,7 @@ func splitQueries(dst []*subquery, source string, expr *parser.TabularExpr) ([]*
 			joinSource.WriteString(` AS "` + rightJoinTableAlias + `" ON `)
 			joinCtx := &exprContext{
 				source: source,
+				scope:  scope,
 				mode:   joinExprMode,
 			}
 			if err := writeExpression(joinCtx, joinSource, buildJoinCondition(op.Conditions)); err != nil {
